@@ -165,7 +165,9 @@ func JudgeC09(c *Ctx, h *History, obs []*Obs) ([]Violation, error) {
 			return nil, err
 		}
 		sfx := ""
-		if lacksPackageClause(o, tags) {
+		if g.FileAge != "fresh" && lacksPackageClause(o, tags) {
+			// F9 needs the settled regime (go command reading through its module index);
+			// in the fresh regime the same state must recover
 			sfx = "/stale-output-without-package-clause"
 			c.Stats.Add("c09.gens_over_output_without_package_clause", 1)
 		}
